@@ -458,3 +458,18 @@ Proof.
   destruct x as [l|e], y as [l'|e']; cbn [rres_frame]; auto.
   intros (F1 & F2 & F3 & F4 & F5 & F6 & F7 & F8 & F9). repeat split; try assumption; [apply F6|apply F7|apply F8].
 Qed.
+
+(* a readable base file stays readable with junk lines, and the frame holds *)
+Corollary read_junk_blocks_ok fhex fstr numeq o t t' pre pre' bs bs' l :
+  o_ignore_header_errors o = true ->
+  lines_keep t = pre ++ render bs -> lines_keep t' = pre' ++ render bs' ->
+  notitles pre -> notitles pre' -> Forall wf_block bs ->
+  Forall2 (junk_ins_block (o_mcase o)) bs bs' ->
+  read fhex fstr numeq o t = ROk l ->
+  exists l', read fhex fstr numeq o t' = ROk l' /\ las_frame l l'.
+Proof.
+  intros Hf E E' Hp Hp' Hb H Hr.
+  pose proof (read_junk_blocks fhex fstr numeq o t t' pre pre' bs bs' Hf E E' Hp Hp' Hb H) as F.
+  rewrite Hr in F. destruct (read fhex fstr numeq o t') as [l'|e]; cbn [rres_frame] in F; [|contradiction].
+  exists l'. split; [reflexivity|exact F].
+Qed.
